@@ -51,7 +51,7 @@ def _conv(note, margins, key, a1, a2, r1, r2, tr1, tr2, p, scale, nd, h2):
     e1, e2 = A.err(a1, r1, tr1), A.err(a2, r2, tr2)
     ok, q = A.order_ok(e1, e2, p, floor)
     if np.isfinite(q):
-        margins.append(q - (p - 1.5))
+        margins.append(q - (p - max(1.5, 0.3 * p)))
     if not ok:
         note.fail(key, dict(e1=e1, e2=e2, q=q, scale=scale, floor=floor))
 
